@@ -10,6 +10,9 @@
 import Distill.Model.Convert
 import Distill.Model.Style
 import Distill.Model.Candidates
+import Distill.Model.IEReader
+import Distill.Model.Words
+import Distill.Model.Html
 namespace Distill
 
 /-- the attributes of the element with the given id, `[]` when there is none -/
@@ -42,5 +45,42 @@ def deriveAtoms (t : Node) (A : CAtoms) : CAtoms :=
     visHidden := fun i => derivedVisHidden (attrsOf t i),
     rxUnlikely := fun i => derivedUnlikely (attrsOf t i),
     rxMaybe := fun i => derivedMaybe (attrsOf t i) }
+
+mutual
+/-- the node with the given id -/
+def findNode (i : Nat) : Node → Option Node
+  | .text j d => if i == j then some (.text j d) else none
+  | .other j k => if i == j then some (.other j k) else none
+  | .elem j t a ks => if i == j then some (.elem j t a ks) else findNodeL i ks
+def findNodeL (i : Nat) : List Node → Option Node
+  | [] => none
+  | k :: ks => match findNode i k with | some n => some n | none => findNodeL i ks
+end
+
+/-- `isByline` on the element (rel, itemprop, class + " " + id, text content) -/
+def derivedByline (e : Node) : Bool :=
+  match Cand.answers (getAttr e.attrs "class") (getAttr e.attrs "id") (getAttr e.attrs "rel") (getAttr e.attrs "itemprop")
+      (String.ofList (IE.textContent e)) with
+  | some a => a.byline
+  | none => false
+
+/-- `stringutil.IsStringAllWhitespace` -/
+def derivedBlank (data : String) : Bool := data.toList.all isSpaceChar
+
+/-- `WordCounter.Count` with the counter `SelectWordCounter` picks for the text content of the root -/
+def derivedWords (root : Node) (data : String) : Nat := (selectCounter (IE.textContent root)).count data.toList
+
+/-- … and three more: byline, blank, word count -/
+def deriveAtomsFull (t : Node) (A : CAtoms) : CAtoms :=
+  -- the counter is selected once for the page
+  let counter := selectCounter (IE.textContent t)
+  { deriveAtoms t A with
+    byline := fun i => match findNode i t with | some e => derivedByline e | none => false,
+    blank := fun i => match findNode i t with | some (.text _ d) => derivedBlank d | _ => false,
+    words := fun i => match findNode i t with | some (.text _ d) => counter.count d.toList | _ => 0 }
+
+theorem deriveAtomsFull_words (t : Node) (A : CAtoms) (i : Nat) (j : Nat) (d : String) (h : findNode i t = some (.text j d)) :
+    (deriveAtomsFull t A).words i = derivedWords t d := by
+  simp [deriveAtomsFull, derivedWords, h]
 
 end Distill
